@@ -5,6 +5,7 @@ import (
 
 	"fmt"
 	"math"
+	"reflect"
 	"strings"
 	"sync/atomic"
 	"unicode"
@@ -519,8 +520,18 @@ func (i *Interpreter) evaluateEq(left, right interface{}) (interface{}, error) {
 		return coercedLeft == coercedRight, nil
 	}
 
-	// For non-numeric types, compare directly
+	// For non-numeric types, compare directly. Arrays and objects are
+	// uncomparable Go values (== panics on them); like the VM, they never
+	// compare equal.
+	if !isComparableValue(left) || !isComparableValue(right) {
+		return false, nil
+	}
 	return left == right, nil
+}
+
+// isComparableValue reports whether == can be applied to v without panicking.
+func isComparableValue(v interface{}) bool {
+	return v == nil || reflect.TypeOf(v).Comparable()
 }
 
 // evaluateNe handles inequality comparison
